@@ -1,7 +1,9 @@
 package main
 
 import (
+	"bytes"
 	"crypto/sha256"
+	"encoding/binary"
 	"strings"
 
 	"github.com/polynetwork/poly/common"
@@ -191,4 +193,69 @@ func refProofLen(m, n int, b bool) int {
 		return refProofLen(m, k, b) + 1
 	}
 	return refProofLen(m-k, n-k, false) + 1
+}
+
+// refFoldPath is an independent reading of a MerkleProve path (written from the wire format, shares no code
+// with /repo): varuint length, value, then (flag, 32-byte hash) pairs; flag 0 = sibling on the left.
+// ok=false when the value cannot be read.
+func refFoldPath(path []byte) (value []byte, root common.Uint256, ok bool) {
+	if len(path) == 0 {
+		return nil, root, false
+	}
+	var n uint64
+	rest := path[1:]
+	need := 0
+	switch path[0] {
+	case 0xfd:
+		need = 2
+	case 0xfe:
+		need = 4
+	case 0xff:
+		need = 8
+	default:
+		n = uint64(path[0])
+	}
+	if need > 0 {
+		if len(rest) < need {
+			return nil, root, false
+		}
+		buf := make([]byte, 8)
+		copy(buf, rest[:need])
+		n = binary.LittleEndian.Uint64(buf)
+		rest = rest[need:]
+	}
+	if uint64(len(rest)) < n {
+		return nil, root, false
+	}
+	value, rest = rest[:n], rest[n:]
+	h := refLeaf(value)
+	for len(rest) >= 33 {
+		var sib common.Uint256
+		copy(sib[:], rest[1:33])
+		if rest[0] == 0 {
+			h = refNode(sib, h)
+		} else {
+			h = refNode(h, sib)
+		}
+		rest = rest[33:]
+	}
+	return value, h, true
+}
+
+// otherRoots returns roots that differ from `root`: one flipped bit, the zero hash, and `alt` (root of another tree).
+func otherRoots(root []byte, alt common.Uint256) [][]byte {
+	var out [][]byte
+	if len(root) == 32 {
+		f := append([]byte{}, root...)
+		f[13] ^= 0x20
+		out = append(out, f)
+	}
+	z := make([]byte, 32)
+	if !bytes.Equal(z, root) {
+		out = append(out, z)
+	}
+	if !bytes.Equal(alt[:], root) {
+		out = append(out, append([]byte{}, alt[:]...))
+	}
+	return out
 }
